@@ -1093,8 +1093,9 @@ def create_impl(data: SequenceData, config: MPSConfig) -> MPSBackendImpl:
             noise_types=list(config.noise_model.noise_types),
         )
 
+    if config.solver == Solver.DMRG:
+        # DMRGBackendImpl refuses every noise type, Lindbladian ones included
+        return DMRGBackendImpl(config, data)
     if data.lindblad_ops:
         return NoisyMPSBackendImpl(config, data)
-    if config.solver == Solver.DMRG:
-        return DMRGBackendImpl(config, data)
     return MPSBackendImpl(config, data)
